@@ -349,7 +349,8 @@ fn call(name: &str, args: &[E], env: &Env) -> R {
             for a in args {
                 let here = cur.as_ref().unwrap_or(env);
                 match eval(a, here)? {
-                    Some(v) => cur = Some(here.descend(v)),
+                    // selected names inside a pipe stage are as unspecified as inside a functional argument
+                    Some(v) => cur = Some(here.with_input(v)),
                     None => return Ok(None),
                 }
             }
